@@ -6,6 +6,7 @@ import ProfiVerif.Props.C11
 import ProfiVerif.Props.C15
 import ProfiVerif.Props.C16
 import ProfiVerif.Props.C02
+import ProfiVerif.Lemmas.StationProgress
 
 namespace PV.C06
 open PV
@@ -58,5 +59,359 @@ theorem backoff_data (c : Ctx) (now : Int) (addr : Nat) (d : UseData) (hst : c.s
 
 /-- `restart_clean`: `set_offline` followed by `set_online` is indistinguishable from a fresh station. -/
 theorem restart_clean (s : Station) : s.setOffline.setOnline = (Station.new s.p).setOnline := rfl
+
+/-! ## Liveness on a silent bus: a single online station never stays silent
+
+Setting of all theorems below: a station context satisfying the C05 invariant `Inv`, online, nothing
+handed to the PHY yet in this poll, **empty receive buffer**, a known bus-activity stamp `l`, PHY idle
+(`phyTransmitting = false`).  `T := Params.silence = max tokenLostTimeout (max slotTime (bits 33))` is
+the longest timer the station ever waits on; a poll at `now` with `l + T < now` is called *late*
+(`Late p l now`).  `pollsToTx s ∈ {1, 2, 3}` is the number of late polls the state needs:
+3 for `ClaimToken(Scan | ScanAwait)` standing at the last GAP address, 2 for `ClaimToken(Scan)` with the
+sweep finished, 1 for every other state. -/
+
+/-- **`silent_bus_progress`**: a late poll on a silent bus returns regularly, keeps the invariant,
+parameters and connectivity, and EITHER hands a telegram to the PHY OR ends — receive buffer still
+empty, stamp still `l`, so the same time bound keeps holding — in a state related to the start state
+by `Deferred`, i.e. exactly one of
+* `ClaimToken(Scan)`, GAP state `Waiting` → `PassToken(no gap, first)`;
+* `ClaimToken(Scan)` or `ClaimToken(ScanAwait a)` whose sweep position `cur` is the last GAP address
+  (`nextGapPoll TS NS HSA cur = waiting`) → `ClaimToken(Scan)` with GAP state `Waiting 0`;
+and then the bound `pollsToTx` has strictly decreased.  (`UseToken` and `AwaitDataResponse` after its
+time-out pass the token in the same poll — repair of finding K3 — and therefore always transmit.) -/
+theorem silent_bus_progress (c : Ctx) (now l : Int) (hinv : Inv c.s c.apps) (hon : c.s.online = true)
+    (htx : c.tx = none) (hrx : c.rx = []) (hl : c.s.lastBusActivity = some l)
+    (hlate : l + (c.s.p.silence : Nat) < now) :
+    ∃ c', pollInner c now false = .ok c' ∧ Inv c'.s c'.apps ∧ c'.apps.length = c.apps.length ∧
+      c'.s.online = true ∧ c'.s.p = c.s.p ∧
+      (c'.tx ≠ none ∨
+        (c'.tx = none ∧ c'.rx = [] ∧ c'.s.lastBusActivity = some l ∧ Deferred c.s c'.s ∧
+          pollsToTx c'.s < pollsToTx c.s)) := by
+  obtain ⟨c', h, hi, hlen, ho, hp, hd⟩ := silent_step c now l hinv ⟨hon, htx, hrx, hl⟩
+  refine ⟨c', h, hi, hlen, ho, hp, hd.imp id ?_⟩
+  rintro ⟨hs', hdef⟩
+  exact ⟨hs'.tx, hs'.rx, hs'.last, hdef hlate, deferred_lt (hdef hlate)⟩
+
+/-- **Exact characterisation of the first late poll**: it transmits if and only if the start state's
+bound is 1 — i.e. every state except `ClaimToken(Scan)` with the sweep finished and
+`ClaimToken(Scan | ScanAwait)` at the last GAP address. -/
+theorem silent_poll_transmits_iff (c : Ctx) (now l : Int) (hinv : Inv c.s c.apps) (hon : c.s.online = true)
+    (htx : c.tx = none) (hrx : c.rx = []) (hl : c.s.lastBusActivity = some l)
+    (hlate : l + (c.s.p.silence : Nat) < now) (c' : Ctx) (h : pollInner c now false = .ok c') :
+    c'.tx ≠ none ↔ pollsToTx c.s = 1 := by
+  have hs : Sil c l := ⟨hon, htx, hrx, hl⟩
+  constructor
+  · intro ht
+    by_cases hb : 2 ≤ pollsToTx c.s
+    · exact absurd (late_noTx_of_bound c now l hs hinv hlate hb c' h) ht
+    · have := (pollsToTx_le c.s).1; omega
+  · intro h1
+    obtain ⟨c'', h', -, -, -, -, hd⟩ := silent_bus_progress c now l hinv hon htx hrx hl hlate
+    rw [h] at h'
+    cases h'
+    rcases hd with hd | ⟨-, -, -, -, hlt⟩
+    · exact hd
+    · have := (pollsToTx_le c'.s).1; omega
+
+/-- The poll that follows a deferred one: from `PassToken` the next late poll transmits. -/
+theorem pass_token_transmits (c : Ctx) (now l : Int) (hinv : Inv c.s c.apps) (hon : c.s.online = true)
+    (htx : c.tx = none) (hrx : c.rx = []) (hl : c.s.lastBusActivity = some l)
+    (hlate : l + (c.s.p.silence : Nat) < now) (g : Bool) (att : Attempt) (hst : c.s.st = .passToken g att) :
+    ∃ c', pollInner c now false = .ok c' ∧ Inv c'.s c'.apps ∧ c'.tx ≠ none := by
+  obtain ⟨c', h, hi, -, -, -, hd⟩ := silent_bus_progress c now l hinv hon htx hrx hl hlate
+  refine ⟨c', h, hi, ?_⟩
+  exact (silent_poll_transmits_iff c now l hinv hon htx hrx hl hlate c' h).2 (by simp [pollsToTx, hst])
+
+/-- **`silent_bus_polls`**: `pollsToTx s` late polls (at any later times, in any order) on a silent bus
+contain a transmission; all polls up to it return regularly. -/
+theorem silent_bus_polls (s : Station) (apps : Apps) (l : Int) (hinv : Inv s apps) (hon : s.online = true)
+    (hl : s.lastBusActivity = some l) (late : List Int) (hlate : ∀ t ∈ late, l + (s.p.silence : Nat) < t)
+    (hn : pollsToTx s ≤ late.length) : TransmitsWithin s apps [] late :=
+  late_polls_transmit s.p l late.length late s apps hinv hon hl rfl hlate hn (Nat.le_refl _)
+
+/-- **`silent_bus_two_polls`**: for every start state except `ClaimToken(Scan | ScanAwait)` standing at
+the last GAP address, the first late poll transmits or the second one does. -/
+theorem silent_bus_two_polls (s : Station) (apps : Apps) (l now now2 : Int) (hinv : Inv s apps) (hon : s.online = true)
+    (hl : s.lastBusActivity = some l) (h1 : l + (s.p.silence : Nat) < now) (h2 : now ≤ now2)
+    (hb : pollsToTx s ≤ 2) : TransmitsWithin s apps [] [now, now2] :=
+  silent_bus_polls s apps l hinv hon hl [now, now2]
+    (by intro t ht; simp at ht; rcases ht with rfl | rfl <;> omega) hb
+
+/-- **`silent_bus_three_polls`**: from EVERY state, among three late polls one transmits. -/
+theorem silent_bus_three_polls (s : Station) (apps : Apps) (l now now2 now3 : Int) (hinv : Inv s apps)
+    (hon : s.online = true) (hl : s.lastBusActivity = some l) (h1 : l + (s.p.silence : Nat) < now)
+    (h2 : now ≤ now2) (h3 : now2 ≤ now3) : TransmitsWithin s apps [] [now, now2, now3] :=
+  silent_bus_polls s apps l hinv hon hl [now, now2, now3]
+    (by intro t ht; simp at ht; rcases ht with rfl | rfl | rfl <;> omega) (pollsToTx_le s).2
+
+/-- **`never_permanently_silent`** (schedule form): on a silent bus, whatever polls precede (`pre`, at
+arbitrary times — they either transmit or leave stamp and silence untouched), the transmission comes
+no later than the third poll whose time exceeds `l + T`. -/
+theorem never_permanently_silent (s : Station) (apps : Apps) (l : Int) (hinv : Inv s apps) (hon : s.online = true)
+    (hl : s.lastBusActivity = some l) (pre late : List Int) (hlate : ∀ t ∈ late, l + (s.p.silence : Nat) < t)
+    (h3 : 3 ≤ late.length) : TransmitsWithin s apps [] (pre ++ late) :=
+  pre_polls s.p l late pre s apps hinv hon hl rfl (fun s' apps' hi' ho' hl' hp' =>
+    late_polls_transmit s.p l late.length late s' apps' hi' ho' hl' hp' hlate
+      (by have := (pollsToTx_le s').2; omega) (Nat.le_refl _))
+
+/-- **`never_permanently_silent_timed`**: for an infinite poll schedule `t 0 ≤ t 1 ≤ …` with poll period
+at most `P` that does not stop before `l + T`, a transmission occurs at a poll no later than
+`l + T + 3·P` after the last registered bus activity `l`. -/
+theorem never_permanently_silent_timed (s : Station) (apps : Apps) (l : Int) (hinv : Inv s apps) (hon : s.online = true)
+    (hl : s.lastBusActivity = some l) (t : Nat → Int) (P : Nat)
+    (hmono : ∀ i, t i ≤ t (i + 1)) (hgap : ∀ i, t (i + 1) ≤ t i + P)
+    (h0 : t 0 ≤ l + (s.p.silence : Nat) + P) (hgo : ∃ k, l + (s.p.silence : Nat) < t k) :
+    ∃ n, t n ≤ l + (s.p.silence : Nat) + 3 * P ∧ TransmitsWithin s apps [] ((List.range (n + 1)).map t) := by
+  obtain ⟨k, hk⟩ := hgo
+  -- the first late poll
+  have first : ∀ k, l + (s.p.silence : Nat) < t k → ∃ j, l + (s.p.silence : Nat) < t j ∧ t j ≤ l + (s.p.silence : Nat) + P := by
+    intro k
+    induction k with
+    | zero => intro h; exact ⟨0, h, h0⟩
+    | succ k ih =>
+      intro h
+      by_cases hk' : l + (s.p.silence : Nat) < t k
+      · exact ih hk'
+      · exact ⟨k + 1, h, by have := hgap k; omega⟩
+  obtain ⟨j, hj1, hj2⟩ := first k hk
+  have hg2 : t (j + 2) ≤ t (j + 1) + P := hgap (j + 1)
+  have hm2 : t (j + 1) ≤ t (j + 2) := hmono (j + 1)
+  refine ⟨j + 2, by have := hgap j; omega, ?_⟩
+  have hsplit : (List.range (j + 2 + 1)).map t = (List.range j).map t ++ [t j, t (j + 1), t (j + 2)] := by
+    rw [show j + 2 + 1 = j + 3 from rfl, List.range_add]
+    simp [List.range_succ]
+  rw [hsplit]
+  exact never_permanently_silent s apps l hinv hon hl _ _
+    (by intro x hx; simp at hx; have := hmono j; rcases hx with rfl | rfl | rfl <;> omega)
+    (by simp)
+
+/-- **`never_permanently_silent_any`**: no assumption on the stamp.  From EVERY online state satisfying
+the invariant — with a registered bus activity `l` or without any (then the first poll `t0` starts the
+clock: `l := t0`) — a silent-bus schedule `t0 :: pre ++ late` whose last three or more polls are later
+than `l + T` contains a transmission. -/
+theorem never_permanently_silent_any (s : Station) (apps : Apps) (hinv : Inv s apps) (hon : s.online = true)
+    (t0 : Int) (pre late : List Int)
+    (hlate : ∀ t ∈ late, s.lastBusActivity.getD t0 + (s.p.silence : Nat) < t) (h3 : 3 ≤ late.length) :
+    TransmitsWithin s apps [] (t0 :: (pre ++ late)) := by
+  cases hl : s.lastBusActivity with
+  | some l =>
+    rw [hl] at hlate
+    exact never_permanently_silent s apps l hinv hon hl (t0 :: pre) late hlate h3
+  | none =>
+    rw [hl] at hlate
+    exact fresh_polls s apps t0 (pre ++ late) hinv hon hl (fun s' apps' hi' ho' hl' hp' =>
+      never_permanently_silent s' apps' t0 hi' ho' hl' pre late (by rw [hp']; exact hlate) h3)
+
+/-- **`cold_start_transmits`**: a station that is switched online on a dead bus (valid parameters, any
+applications that build encodable telegrams) transmits — in fact it claims the token — no later than
+the third poll that comes more than `T` after its first poll. -/
+theorem cold_start_transmits (p : Params) (apps : Apps) (h1 : p.address < p.hsa) (h2 : p.hsa ≤ 126) (hs : ScriptsOk apps)
+    (t0 : Int) (pre late : List Int) (hlate : ∀ t ∈ late, t0 + (p.silence : Nat) < t) (h3 : 3 ≤ late.length) :
+    TransmitsWithin (Station.new p).setOnline apps [] (t0 :: (pre ++ late)) := by
+  have hinv : Inv (Station.new p).setOnline apps := by
+    have h := inv_new p apps h1 h2 hs
+    exact ⟨h.addr, h.hsa, h.ring, fun ho => by simp [Station.setOnline] at ho, h.gap, h.await1, h.await2, h.app, h.appWait,
+      h.scripts, h.noPassive⟩
+  exact never_permanently_silent_any _ apps hinv rfl t0 pre late hlate h3
+
+/-! ## The three recovery mechanisms at whole-poll level -/
+
+/-- **`claim_progress`** (lost token): a station in `ListenToken` or `ActiveIdle` — with or without a
+pending status request, `handle_lost_token` comes first — whose bus has been silent for its token-lost
+time-out (and for the 33-bit synchronisation pause, which is shorter for all sensible parameters)
+transmits the self-addressed token in this very poll and ends in `ClaimToken(SecondToken)` with a
+valid LAS view and the GAP sweep reset to its own address. -/
+theorem claim_progress (c : Ctx) (now l : Int) (hinv : Inv c.s c.apps) (hon : c.s.online = true)
+    (htx : c.tx = none) (hrx : c.rx = []) (hl : c.s.lastBusActivity = some l)
+    (hidle : (∃ sr coll, c.s.st = .listenToken sr coll) ∨ (∃ sr np coll, c.s.st = .activeIdle sr np coll))
+    (hsil : (now - l).natAbs ≥ c.s.p.tokenLostTimeout) (hsync : l + (c.s.p.bits 33 : Nat) < now) :
+    ∃ c', pollInner c now false = .ok c' ∧ Inv c'.s c'.apps ∧
+      c'.tx = some (selfToken c.s.p.address) ∧ c'.s.st = .claimToken .secondToken ∧
+      c'.s.gap = .doPoll c.s.p.address ∧ c'.s.ring = c.s.ring.claimToken ∧ c'.calls = c.calls := by
+  have hs : Sil c l := ⟨hon, htx, hrx, hl⟩
+  have hidle' : IdleLike c.s.st := by
+    rcases hidle with ⟨a, b, h⟩ | ⟨a, b, d, h⟩
+    · exact Or.inr ⟨a, b, h⟩
+    · exact Or.inl ⟨a, b, d, h⟩
+  have hno : c.s.st ≠ .offline := by
+    rcases hidle with ⟨a, b, h⟩ | ⟨a, b, d, h⟩ <;> rw [h] <;> simp
+  obtain ⟨c', h, hi, -⟩ := pollInner_good c now false hinv htx
+  refine ⟨c', h, hi, ?_⟩
+  rw [pollInner_dispatch c now l hs hinv hno (by omega), idle_claims c now l hs hidle' hsil] at h
+  obtain ⟨-, -, h3⟩ := claimFirst_result c now l hs c' h
+  rcases h3 with ⟨a, b, d, e, -, f⟩ | ⟨-, hw⟩
+  · exact ⟨a, b, d, e, f⟩
+  · omega
+
+/-- **`supervision_progress`** (lost successor): in `CheckTokenPass att` with the slot time expired,
+nothing received (and the synchronisation pause over), the poll retransmits: after the first and
+second expiry the same token goes to the same NS, the ring view only records the own pass; after the
+third expiry NS is removed from the LAS and the token goes to the new NS — or, when the station is
+now alone, it keeps the token (`UseToken`). -/
+theorem supervision_progress (c : Ctx) (now l : Int) (hinv : Inv c.s c.apps) (hon : c.s.online = true)
+    (htx : c.tx = none) (hrx : c.rx = []) (hl : c.s.lastBusActivity = some l)
+    (att : Attempt) (hst : c.s.st = .checkTokenPass att)
+    (hslot : l + (c.s.p.slotTime : Nat) < now) (hsync : l + (c.s.p.bits 33 : Nat) < now) :
+    ∃ c', pollInner c now false = .ok c' ∧ Inv c'.s c'.apps ∧ c'.calls = c.calls ∧
+      ∃ r next, (match att with
+          | .first => r = c.s.ring ∧ next = Attempt.second
+          | .second => r = c.s.ring ∧ next = Attempt.third
+          | .third => c.s.ring.removeStation c.s.ring.ns = some r ∧ r.isActive c.s.ring.ns = false ∧ next = Attempt.first) ∧
+        c'.tx = some (sendToken (UInt8.ofNat r.ns) (UInt8.ofNat c.s.p.address)) ∧
+        c'.s.ring = r.witness c.s.p.address r.ns ∧
+        c'.s.st = (if c'.s.ring.ns = c.s.p.address then .useToken ⟨now, none⟩ false else .checkTokenPass next) := by
+  have hs : Sil c l := ⟨hon, htx, hrx, hl⟩
+  have hno : c.s.st ≠ .offline := by rw [hst]; simp
+  obtain ⟨c', h, hi, -⟩ := pollInner_good c now false hinv htx
+  refine ⟨c', h, hi, ?_⟩
+  rw [pollInner_dispatch c now l hs hinv hno (by omega)] at h
+  unfold dispatch at h
+  rw [hst] at h
+  simp only at h
+  rw [check_expired c now l hs att hst (by omega) hsync] at h
+  cases att with
+  | first =>
+    simp only at h
+    obtain ⟨-, h1, -, -, -, h5, -, h7, h8⟩ := passTokenOn_sends _ now _ c' h
+    exact ⟨h5, c.s.ring, .second, ⟨rfl, rfl⟩, h1, h7, h8⟩
+  | second =>
+    simp only at h
+    obtain ⟨-, h1, -, -, -, h5, -, h7, h8⟩ := passTokenOn_sends _ now _ c' h
+    exact ⟨h5, c.s.ring, .third, ⟨rfl, rfl⟩, h1, h7, h8⟩
+  | third =>
+    simp only at h
+    cases hr : c.s.ring.removeStation c.s.ring.ns with
+    | none => rw [hr] at h; cases h
+    | some r =>
+      rw [hr] at h
+      simp only at h
+      obtain ⟨-, h1, -, -, -, h5, -, h7, h8⟩ := passTokenOn_sends _ now _ c' h
+      exact ⟨h5, r, .first, ⟨rfl, removeStation_inactive _ _ _ hr, rfl⟩, h1, h7, h8⟩
+
+/-- **`reply_timeout_progress`** (lost reply): in `AwaitDataResponse` with the slot time expired and
+nothing received, exactly one `timeout` record for the requesting application is appended, and the
+poll continues as token holder — it *is* the `UseToken` poll (first cycle done) on the resulting
+context; whatever that records afterwards are `transmit_telegram` calls only. -/
+theorem reply_timeout_progress (c : Ctx) (now l : Int) (hinv : Inv c.s c.apps) (hon : c.s.online = true)
+    (htx : c.tx = none) (hrx : c.rx = []) (hl : c.s.lastBusActivity = some l)
+    (addr : Nat) (d : UseData) (hst : c.s.st = .awaitData addr d) (hslot : l + (c.s.p.slotTime : Nat) < now) :
+    ∃ c' extra, pollInner c now false = .ok c' ∧ Inv c'.s c'.apps ∧
+      pollInner c now false =
+        doUseToken { c with calls := c.calls ++ [.timeout c.s.nextApp addr], s := { c.s with st := .useToken d true } } now ∧
+      c'.calls = c.calls ++ [.timeout c.s.nextApp addr] ++ extra ∧ OnlyTransmitCalls extra := by
+  have hs : Sil c l := ⟨hon, htx, hrx, hl⟩
+  have hno : c.s.st ≠ .offline := by rw [hst]; simp
+  obtain ⟨c', h, hi, -⟩ := pollInner_good c now false hinv htx
+  have heq : pollInner c now false =
+      doUseToken { c with calls := c.calls ++ [.timeout c.s.nextApp addr], s := { c.s with st := .useToken d true } } now := by
+    rw [pollInner_dispatch c now l hs hinv hno (by omega)]
+    unfold dispatch
+    rw [hst]
+    simp only
+    exact awaitData_timeout c now l addr d hs hst (hinv.appWait addr d hst) (by omega)
+  rw [heq] at h
+  obtain ⟨extra, he, ho⟩ := doUseToken_calls _ now c' h
+  exact ⟨c', extra, heq.trans h, hi, heq, he, ho⟩
+
+/-- And when the poll is also past the synchronisation pause, the time-out poll transmits (an
+application telegram, a GAP poll or the token): the station does not fall silent after a lost reply. -/
+theorem reply_timeout_transmits (c : Ctx) (now l : Int) (hinv : Inv c.s c.apps) (hon : c.s.online = true)
+    (htx : c.tx = none) (hrx : c.rx = []) (hl : c.s.lastBusActivity = some l)
+    (addr : Nat) (d : UseData) (hst : c.s.st = .awaitData addr d) (hlate : l + (c.s.p.silence : Nat) < now) :
+    ∃ c', pollInner c now false = .ok c' ∧ c'.tx ≠ none := by
+  obtain ⟨c', h, -, -, -, -, -⟩ := silent_bus_progress c now l hinv hon htx hrx hl hlate
+  exact ⟨c', h, (silent_poll_transmits_iff c now l hinv hon htx hrx hl hlate c' h).2 (by simp [pollsToTx, hst])⟩
+
+/-! ## Non-vacuity and tightness
+
+A concrete station (TS 1, HSA 2, alone on the bus) that has claimed the token and waits for the reply
+of the only GAP address 0.  It satisfies all hypotheses of the theorems above, needs the full three
+late polls (`pollsToTx = 3`): the first two late polls transmit nothing (`ClaimToken(Scan)` with the
+sweep finished, then `PassToken`), the third passes the token to itself.  The same history on the real
+code: `corpus/station/C06_three_polls.ops`. -/
+
+def demoParams : Params :=
+  { address := 1, rate := 500000, slotBits := 100, ttrBits := 20000, gapWait := 1, hsa := 2, maxRetry := 1,
+    minTsdrBits := 11 }
+
+def demo : Station :=
+  { (Station.new demoParams) with
+      online := true, st := .claimToken (.scanAwait 0), gap := .doPoll 0, lastBusActivity := some 300066,
+      ring := (TokenRing.new 1).claimToken }
+
+theorem demo_inv : Inv demo [] := by
+  refine ⟨by decide, by decide, TokenRing.new_ok 1 (by decide), by simp [demo], ?_, ?_, ?_, by simp, ?_, ?_, by simp [demo]⟩
+  · intro cur h; simp [demo] at h; subst h; decide
+  · intro a h; simp [demo] at h
+  · intro a h; simp [demo] at h; subst h; exact ⟨rfl, by decide⟩
+  · intro a d h; simp [demo] at h
+  · intro sc h; cases h
+
+example : pollsToTx demo = 3 := by decide
+
+example : demoParams.silence = 1600 := by decide
+
+/-- The hypotheses of `silent_bus_three_polls` / `never_permanently_silent` hold for `demo`. -/
+example : TransmitsWithin demo [] [] [400000, 500000, 600000] :=
+  silent_bus_three_polls demo [] 300066 400000 500000 600000 demo_inv rfl rfl (by decide) (by decide) (by decide)
+
+/-- Two late polls are not enough in general: `demo` stays silent in both, ends in `PassToken`. -/
+example : (match demo.poll [] 400000 false [] with
+    | .ok c1 => (match c1.s.poll c1.apps 500000 false c1.rx with
+      | .ok c2 => (c1.tx, c1.s.st, c1.s.gap, c2.tx, c2.s.st)
+      | .panic _ => (none, .offline, .waiting 9, none, .offline))
+    | .panic _ => (none, .offline, .waiting 9, none, .offline)) =
+    (none, .claimToken .scan, .waiting 0, none, .passToken false .first) := by decide
+
+/-- **Tightness**: from every state with bound 3 (claim scan standing at the last GAP address) the first
+TWO late polls transmit nothing — the unrestricted two-poll statement is false, three polls are needed. -/
+theorem two_polls_silent_of_bound3 (s : Station) (apps : Apps) (l now now2 : Int) (hinv : Inv s apps)
+    (hon : s.online = true) (hl : s.lastBusActivity = some l) (h1 : l + (s.p.silence : Nat) < now) (h2 : now ≤ now2)
+    (hb : pollsToTx s = 3) : ¬ TransmitsWithin s apps [] [now, now2] := by
+  rintro ⟨c1, hc1, h⟩
+  have hc1' : pollInner { s := s, apps := apps, rx := [] } now false = .ok c1 := hc1
+  have hs : Sil { s := s, apps := apps, rx := [] } l := ⟨hon, rfl, rfl, hl⟩
+  have ht1 := late_noTx_of_bound _ now l hs hinv h1 (by show 2 ≤ pollsToTx s; omega) c1 hc1'
+  obtain ⟨c', hc', hi1, -, ho1, hp1, hd⟩ := silent_bus_progress { s := s, apps := apps, rx := [] } now l hinv hon rfl rfl hl h1
+  rw [hc1'] at hc'
+  cases hc'
+  rcases hd with hd | ⟨-, hrx1, hl1, hdef, -⟩
+  · exact hd ht1
+  · rcases h with h | ⟨c2, hc2, h⟩
+    · exact h ht1
+    · have hb1 : pollsToTx c1.s = 2 := by
+        rcases hdef with ⟨hst, ⟨r, hr⟩, -⟩ | ⟨-, cur, -, -, hst', hg'⟩
+        · have hst0 : s.st = .claimToken .scan := hst
+          have hr0 : s.gap = .waiting r := hr
+          simp [pollsToTx, hst0, hr0] at hb
+        · simp [pollsToTx, hst', hg']
+      have hs1 : Sil { s := c1.s, apps := c1.apps, rx := c1.rx } l := ⟨ho1, rfl, hrx1, hl1⟩
+      have hlate2 : Late c1.s.p l now2 := by
+        show l + (c1.s.p.silence : Nat) < now2
+        rw [hp1]; show l + (s.p.silence : Nat) < now2; omega
+      have ht2 := late_noTx_of_bound _ now2 l hs1 hi1 hlate2 (by show 2 ≤ pollsToTx c1.s; omega) c2 hc2
+      rcases h with h | h
+      · exact h ht2
+      · exact h
+
+/-- The unrestricted two-poll claim fails on the concrete station `demo`. -/
+theorem two_polls_not_enough : ∃ (s : Station) (apps : Apps) (l now now2 : Int), Inv s apps ∧ s.online = true ∧
+    s.lastBusActivity = some l ∧ l + (s.p.silence : Nat) < now ∧ now ≤ now2 ∧ ¬ TransmitsWithin s apps [] [now, now2] :=
+  ⟨demo, [], 300066, 400000, 500000, demo_inv, rfl, rfl, by decide, by decide,
+    two_polls_silent_of_bound3 demo [] 300066 400000 500000 demo_inv rfl rfl (by decide) (by decide) (by decide)⟩
+
+def listenDemo : Station :=
+  { (Station.new demoParams) with online := true, st := .listenToken none 0, lastBusActivity := some 0 }
+
+/-- Non-vacuity of `claim_progress`: a listening station (TS 1) after 1600 µs (800 bit at 500 kbit/s) of silence. -/
+example : ∃ c', pollInner { s := listenDemo, apps := [], rx := [] } 1600 false = .ok c' ∧ c'.tx = some (selfToken 1) := by
+  have hinv : Inv listenDemo [] := by
+    refine ⟨by decide, by decide, TokenRing.new_ok 1 (by decide), by simp [listenDemo], ?_, by simp [listenDemo],
+      by simp [listenDemo], by simp, by simp [listenDemo], ?_, by simp [listenDemo]⟩
+    · intro cur h; simp [listenDemo, Station.new] at h; subst h; decide
+    · intro sc h; cases h
+  obtain ⟨c', h, -, htx, -⟩ := claim_progress { s := listenDemo, apps := [], rx := [] }
+    1600 0 hinv rfl rfl rfl rfl (Or.inl ⟨none, 0, rfl⟩) (by decide) (by decide)
+  exact ⟨c', h, htx⟩
 
 end PV.C06
